@@ -234,6 +234,9 @@ func ruleCtxArmIn(c *Ctx, r *R, onlyRel string) {
 		// calls that block without any way for the context to interrupt them: time.Sleep, or an in-module function that
 		// takes no context and blocks on a channel (f.Wait() inside f.WaitContext)
 		nc, nd := 0, 0
+		// the channel parameters of the helpers fn calls stand for fn's own arguments while fn is judged (f.await(ctx.Done())
+		// is interruptible here although Wait calls f.await(nil))
+		unbindCh := bindChanParams(fn)
 		instrs(fn, func(b *ssa.BasicBlock, i int, in ssa.Instruction) {
 			call, ok := in.(*ssa.Call)
 			if !ok {
@@ -296,6 +299,7 @@ func ruleCtxArmIn(c *Ctx, r *R, onlyRel string) {
 				}
 			}
 		})
+		unbindCh()
 		n := 0
 		for _, op := range chanOpsOf(fn) {
 			if !op.blocking {
